@@ -75,6 +75,37 @@ def lock_region(g, n, a=None):
     return regs[0] if regs else None
 
 
+def snapshot_providers(ctx, rule):
+    """reconstruct_* return (content, self.mdib_version_group) computed inside one mdib_lock region."""
+    repo = ctx.repo
+    n_snap = 0
+    for name in sorted(SNAPSHOT):
+        fi = repo.method(MDIB_BASE, name)
+        g = cfg_of(fi)
+        n_snap += 1
+        rets = [n for n in g.nodes if n.kind == 'return']
+        ok = bool(rets)
+        detail = []
+        for rn in rets:
+            region = lock_region(g, rn)
+            v = rn.stmt.value
+            assigns = local_assignments(fi.node)
+            good = region is not None and isinstance(v, ast.Tuple) and len(v.elts) == 2
+            if good:
+                ver = v.elts[1]
+                good = isinstance(ver, ast.Attribute) and ver.attr == 'mdib_version_group' and dotted(ver.value) == 'self'
+                # content expression(s) evaluated in the same region
+                for r in roots(v.elts[0], assigns):
+                    holder = _node_of(g, r)
+                    if holder is None or lock_region(g, holder) is not region:
+                        good = False
+            detail.append({'return_line': rn.lineno, 'in_region': region is not None, 'ok': good})
+            ok = ok and good
+        ctx.ob(rule, name, ok, f'{name} returns (content, self.mdib_version_group) computed inside one '
+               f'`with self.mdib_lock`', fi=fi, witness=detail)
+    ctx.floor(rule, n_snap, 3, 'snapshot providers')
+
+
 def run(ctx):
     repo = ctx.repo
     ctx.rule('C07.R1', 'SAME-REGION: all MDIB reads feeding one Get response lie in one mdib_lock region, or the '
@@ -154,31 +185,7 @@ def run(ctx):
 
     # ---------------------------------------------------------------- R2
     n_snap = 0
-    for name in sorted(SNAPSHOT):
-        fi = repo.method(MDIB_BASE, name)
-        g = cfg_of(fi)
-        n_snap += 1
-        rets = [n for n in g.nodes if n.kind == 'return']
-        ok = bool(rets)
-        detail = []
-        for rn in rets:
-            region = lock_region(g, rn)
-            v = rn.stmt.value
-            assigns = local_assignments(fi.node)
-            good = region is not None and isinstance(v, ast.Tuple) and len(v.elts) == 2
-            if good:
-                ver = v.elts[1]
-                good = isinstance(ver, ast.Attribute) and ver.attr == 'mdib_version_group' and dotted(ver.value) == 'self'
-                # content expression(s) evaluated in the same region
-                for r in roots(v.elts[0], assigns):
-                    holder = _node_of(g, r)
-                    if holder is None or lock_region(g, holder) is not region:
-                        good = False
-            detail.append({'return_line': rn.lineno, 'in_region': region is not None, 'ok': good})
-            ok = ok and good
-        ctx.ob('C07.R2', name, ok, f'{name} returns (content, self.mdib_version_group) computed inside one '
-               f'`with self.mdib_lock`', fi=fi, witness=detail)
-    ctx.floor('C07.R2', n_snap, 3, 'snapshot providers')
+    snapshot_providers(ctx, 'C07.R2')
 
     # ---------------------------------------------------------------- R4
     # GetMdState / GetContextStates serialise the selected state containers after the lock is released; that is
@@ -217,6 +224,10 @@ def run(ctx):
                    f'N+1', fi=fi, node=bad[0] if bad else None, witness={'resident_locals': sorted(res.tainted)})
     ctx.floor('C07.R4', n_cl, 10, 'functions of the commit closure')
 
+    from . import common
+    common.reconstruction_is_uncached(ctx, 'C07.R2')
+    common.version_group_setters_total(ctx, 'C07.R2')
+    common.copies_are_deep(ctx, 'C07.R4')   # a state object selected under the lock does not share values with a later copy
     # ---------------------------------------------------------------- R3
     tm = repo.func('sdc11073.mdib.providermdib.ProviderMdib._transaction_manager')
     g = cfg_of(tm)
